@@ -421,7 +421,9 @@ TVOptimizeQ ==
           q0 == IF s0.hasQ THEN s0.qlp ELSE [s0.rlp EXCEPT !.offset = "0"]
           sq == [s0 EXCEPT !.rlp = [q0 EXCEPT !.offset = s0.offsetPar]]      \* judge against the rational LP (+ objective offset)
           t == KeepT(Ev.o)[Ev.o]
-          base == SolveFails(sq, [r EXCEPT !.hasBasis = FALSE], t, TRUE)
+          \* the basis is judged below against the LP the user sees, not inside SolveFails; AbortLeavesBasis is re-stated here
+          base == (SolveFails(sq, [r EXCEPT !.hasBasis = FALSE], t, TRUE) \ {"AbortLeavesBasis"})
+                  \cup Fail("AbortLeavesBasis", r.status \in {ST_ABORT_ITER, ST_ABORT_VALUE} /\ r.iters > 0 => r.hasBasis)
           conclusive == r.status \in {ST_OPTIMAL, ST_UNBOUNDED, ST_INFEASIBLE}
           s1 == [s0 EXCEPT !.status = r.status, !.hasSol = r.hasSol, !.hasBasis = r.hasBasis,
                            !.brow = IF r.hasBasis THEN r.brow ELSE <<>>, !.bcol = IF r.hasBasis THEN r.bcol ELSE <<>>,
